@@ -75,12 +75,15 @@ def generate(prop, seed, tier):
     n_ops = S.int(1, 4)
     need_fitted = False
     for k in range(n_ops):
-        kind = S.wpick([("save", 5), ("load", 3), ("plot2d", 5), ("plot_dep", 1.2), ("plot_hist", 1), ("plot_iso", 1), ("plot_mq", 0.8), ("plot_dep3", 0.8), ("plot_iso_indep", 0.8), ("load_default", 0.25)])
+        kind = S.wpick([("save", 5), ("load", 3), ("plot2d", 5), ("plot_dep", 1.2), ("plot_hist", 1), ("plot_iso", 1), ("plot_mq", 0.8), ("plot_dep3", 0.8), ("plot_iso_indep", 0.8), ("load_default", 0.25), ("plot_dep_fixed_first", 0.6)])
         if kind == "load_default":
             ops.append({"op": "load_default"})
             continue
         if kind == "plot_iso_indep":
             ops.append({"op": "plot_iso_indep", "swap": S.chance(0.4), "levels": S.pick([None, [0.001, 0.01, 0.05]]), "n_grid": S.pick([120, 250]), "sseed": S.sub("isi", k), "semantics": None})
+            continue
+        if kind == "plot_dep_fixed_first":
+            ops.append({"op": "plot_dep_fixed_first", "family": S.pick(["LogNormal", "Normal"]), "dseed": S.sub("pdf", k), "n": S.pick([600, 1200]), "swap": False, "levels": None, "semantics": None})
             continue
         if kind == "plot_dep3":
             # a directly parameterised 3-D model with two conditional distributions (one panel per dependence function)
@@ -560,6 +563,10 @@ def do_plot2d(run, scen, op, si, model2, state):
     if sample is not None and not np.array_equal(sample, sample_copy):
         run.violate("plot2d-purity", "sample-mutated", {"step": si})
         return
+    after = coords_array(contour)
+    if after is None or after.shape != coords.shape or not np.array_equal(after, coords):
+        run.violate("plot2d-purity", "contour-coordinates-changed", {"swap": op["swap"], "first_before": coords[:2].tolist(), "first_after": None if after is None else after[:2].tolist(), "step": si})
+        return
     if any(len(n) for n in _new(by_ax, by_before)):
         run.violate("plot2d-axes", "drew-on-other-axes", {"step": si})
         return
@@ -611,6 +618,40 @@ def do_plot_dep3(run, scen, op, si):
                     return
     finally:
         plt.close("all")
+
+
+def fitted_model_fixed_first(op):
+    """a small fitted model whose conditional distribution has a *fixed* parameter in front of the
+    conditional one (mu fixed, sigma a function of the first variable); seeded synthetic data"""
+    import scipy.stats as sts
+    from virocon import DependenceFunction, GlobalHierarchicalModel, LogNormalDistribution, NormalDistribution, WeibullDistribution, WidthOfIntervalSlicer
+
+    rng = np.random.default_rng(op["dseed"])
+    n = op["n"]
+    x0 = sts.weibull_min.ppf(rng.uniform(0.001, 0.999, n), 1.8, scale=2.5)
+    sig = 0.2 + 0.05 * x0
+    u = rng.uniform(0.001, 0.999, n)
+    if op["family"] == "LogNormal":
+        x1 = sts.lognorm.ppf(u, sig, scale=np.exp(1.9))
+        d1 = LogNormalDistribution(f_mu=1.9)
+    else:
+        x1 = sts.norm.ppf(u, loc=6.0, scale=4 * sig)
+        d1 = NormalDistribution(f_mu=6.0)
+
+    def lin(x, a=0.5, b=0.1):
+        return a + b * x
+
+    descs = [
+        {"distribution": WeibullDistribution(), "intervals": WidthOfIntervalSlicer(width=0.75, min_n_points=30)},
+        {"distribution": d1, "conditional_on": 0, "parameters": {"sigma": DependenceFunction(lin, bounds=[(0, None), (None, None)])}},
+    ]
+    model = GlobalHierarchicalModel(descs)
+    data = np.column_stack([x0, x1])
+    try:
+        model.fit(data)
+    except Exception:  # noqa: BLE001 - the workload's data
+        return None
+    return model, data, None
 
 
 def do_plot_other(run, scen, op, si, fitted):
@@ -826,6 +867,12 @@ def execute(prop, scen):
                     do_load_default(run, si)
                 elif op["op"] == "plot_dep3":
                     do_plot_dep3(run, scen, op, si)
+                elif op["op"] == "plot_dep_fixed_first":
+                    fm = fitted_model_fixed_first(op)
+                    if fm is None:
+                        run.count("plot_dep_fixed_first_model_not_fitted")
+                    else:
+                        do_plot_other(run, scen, dict(op, op="plot_dep"), si, fm)
                 elif op["op"] == "plot_iso_indep":
                     # a 2-D model without dependence (two unconditional distributions) and a seeded sample of it
                     S2 = core.SeedStream(scen["universe"]["jitter"])
